@@ -86,9 +86,8 @@ func init() {
 					if hasNames {
 						name = hexs(c17render(html.NewIndividualName(p, html.LivingVisibilityShow, html.UnknownEmphasis)))
 					}
-					person = fmt.Sprintf("%s %s %s %s %s %s", bit(p.IsLiving()), c17sex(p), bit(hasNames), name,
-						hexs(c17render(html.NewIndividualDates(p, html.LivingVisibilityShow))),
-						hexs(html.PageIndividual(doc, p, html.LivingVisibilityShow, nil)))
+					person = fmt.Sprintf("%s %s %s %s %s PAGE", bit(p.IsLiving()), c17sex(p), bit(hasNames), name,
+						hexs(c17render(html.NewIndividualDates(p, html.LivingVisibilityShow))))
 					if bs := p.Births(); len(bs) > 0 {
 						evNode = bs[0]
 					}
@@ -103,7 +102,17 @@ func init() {
 					}
 					evDescr = hexs(evNode.Tag().String())
 				}
+				personTemplate := person
 				for _, vis := range visAll {
+					// the page name a person has in this mode (people who get no page: the show-mode name,
+					// which the components must not use)
+					if p != nil {
+						pg := html.PageIndividual(doc, p, vis, nil)
+						if pg == "#" {
+							pg = html.PageIndividual(doc, p, html.LivingVisibilityShow, nil)
+						}
+						person = strings.Replace(personTemplate, "PAGE", hexs(pg), 1)
+					}
 					pe := "-"
 					if evNode != nil {
 						pe = hexs(c17render(html.NewPlaceEvent(doc, evNode, vis, nil)))
@@ -157,14 +166,18 @@ func init() {
 					byLetter[l] = append(byLetter[l], p)
 				}
 				for letter, ps := range byLetter {
-					sort.SliceStable(ps, func(i, j int) bool {
-						return html.PageIndividual(doc, ps[i], html.LivingVisibilityShow, nil) < html.PageIndividual(doc, ps[j], html.LivingVisibilityShow, nil)
-					})
+					pageOf := func(p *gedcom.IndividualNode) string {
+						if pg := html.PageIndividual(doc, p, vis, nil); pg != "#" {
+							return pg
+						}
+						return "hidden-" + html.PageIndividual(doc, p, html.LivingVisibilityShow, nil)
+					}
+					sort.SliceStable(ps, func(i, j int) bool { return pageOf(ps[i]) < pageOf(ps[j]) })
 					page := c17render(html.NewIndividualListPage(doc, letter, "", opts, html.GetIndexLetters(doc, vis), nil))
 					var req, pages []string
 					var rows int
 					for _, p := range ps {
-						key := html.PageIndividual(doc, p, html.LivingVisibilityShow, nil)
+						key := pageOf(p)
 						req = append(req, bit(p.IsLiving()), hexs(key))
 						if generated[key] {
 							pages = append(pages, hexs(key))
